@@ -396,7 +396,10 @@ func runC13(c *Ctx) {
 			// and it returns (the walk totality theorem is about the model)
 			for k := 0; k < 2 && len(data) > 1; k++ {
 				bad := append([]byte{}, data...)
-				switch c.rng.Intn(4) {
+				switch c.rng.Intn(5) {
+				case 4:
+					// the leading count / length replaced by a huge one, the rest cut short
+					bad = append([]byte{0xff, 0xff, 0xff, 0xff, 0xff, 0xff, 0xff, 0xff, 0x3f}, bad[1:1+c.rng.Intn(len(bad)-1)]...)
 				case 0:
 					bad = bad[:1+c.rng.Intn(len(bad)-1)]
 				case 1:
